@@ -75,7 +75,7 @@ func (xorHardening) Apply(dispatcher []cfgInfo, ssaRemap map[ssa.Value]ast.Expr,
 	globalKeyName, localKeyName := getRandomName(rnd), getRandomName(rnd)
 
 	firstKey := int(rnd.Int31())
-	secondKey := make([]byte, literals.MinSize+mathrand.Intn(literals.MinSize)) // make second part of key literals obfuscation friendly
+	secondKey := make([]byte, literals.MinSize+rnd.Intn(literals.MinSize)) // make second part of key literals obfuscation friendly
 	if _, err := rnd.Read(secondKey); err != nil {
 		panic(err)
 	}
@@ -149,7 +149,7 @@ func (xorHardening) Apply(dispatcher []cfgInfo, ssaRemap map[ssa.Value]ast.Expr,
 type delegateTableHardening struct{}
 
 func (delegateTableHardening) Apply(dispatcher []cfgInfo, ssaRemap map[ssa.Value]ast.Expr, rnd *mathrand.Rand) (ast.Decl, ast.Stmt) {
-	keySize := literals.MinSize + mathrand.Intn(literals.MinSize)
+	keySize := literals.MinSize + rnd.Intn(literals.MinSize)
 
 	// Reusing multiple times one decryption function is fine,
 	// but it doesn't make sense to generate more functions than keys.
